@@ -260,4 +260,58 @@ pub fn run(ctx: &Ctx, model: &mut Model, rep: &mut Report) {
             }
         }
     }
+    // libraries whose notes share headings, paragraphs, items, cells and code lines word for word: one note is edited
+    // (once or twice), then every note is formatted through the LSP — an edit of one note must not touch what another says
+    let ns = if ctx.thorough { 1500 } else { 90 };
+    const SHARED: &[&str] = &[
+        "# Summary", "## Open questions", "### Summary", "shared paragraph text", "another shared paragraph", "- open question\n- done",
+        "- done", "1. first step\n2. second step", "| Summary | amount |\n|---|---|\n| rent | 10 |", "| amount |\n|---|\n| Summary |",
+        "> shared paragraph text", "```\ncode line\n```", "[link text](b)", "see [link text](b) and `code line`", "Summary",
+    ];
+    for i in 0..ns {
+        let mut r = Rng::for_case(ctx.seed ^ 0xC01B, i as u64);
+        let keys = ["a", "b", "d/c"];
+        let mut note = |r: &mut Rng| -> String {
+            let n = r.range(2, 6);
+            (0..n).map(|_| r.pick(SHARED).to_string()).collect::<Vec<_>>().join("\n\n") + "\n"
+        };
+        let state: HashMap<String, String> = keys.iter().map(|k| (k.to_string(), note(&mut r))).collect();
+        let edited = *r.pick(&keys[..]);
+        let edits: Vec<String> = (0..r.range(1, 2)).map(|_| if r.chance(1, 3) { "# Changed\n\nnew text\n".to_string() } else { note(&mut r) }).collect();
+        let ext = if i % 2 == 0 { "" } else { ".md" };
+        let via = crate::act::via_for(i as u64 / 2);
+        rep.case(&format!("{:?}{:?}", state, edits), true);
+        rep.count("shared_line_libraries");
+        rep.evaluations += 1;
+        let verdict = dump::catch(|| {
+            crate::act::with_via(via, || {
+                let mut server = server_for(&state, ext);
+                let mut now = state.clone();
+                for t in &edits {
+                    server.handle_did_change_text_document(lsp_types::DidChangeTextDocumentParams {
+                        text_document: lsp_types::VersionedTextDocumentIdentifier { uri: uri_for(edited), version: 2 },
+                        content_changes: vec![lsp_types::TextDocumentContentChangeEvent { range: None, range_length: None, text: t.clone() }],
+                    });
+                    now.insert(edited.to_string(), t.clone());
+                }
+                for k in keys {
+                    let edits = server.handle_document_formatting(DocumentFormattingParams {
+                        text_document: TextDocumentIdentifier { uri: uri_for(k) },
+                        options: FormattingOptions::default(),
+                        work_done_progress_params: Default::default(),
+                    });
+                    let out = edits.first().map(|e| e.new_text.clone()).unwrap_or_default();
+                    let dir = crate::oracle::md::dir_of(k);
+                    let (a, b) = (md::atoms(&now[k], &dir), md::atoms(&out, &dir));
+                    if a != b {
+                        return Some(format!("after editing {:?}, formatting {:?}: {} — output {:?}", edited, k, first_atom_diff(&a, &b), out.chars().take(300).collect::<String>()));
+                    }
+                }
+                None
+            })
+        });
+        if let Ok(Some(what)) = verdict {
+            rep.fail(json!({"kind": "content_after_edit_of_another_note", "library": state, "edited": edited, "edits": edits, "ext": ext, "via": format!("{:?}", via), "what": what}));
+        }
+    }
 }
